@@ -18,7 +18,7 @@ Definition rq_of (x : op) : areq :=
   | _ => mkR (-1) 0 false 0 false 0 None (-1) (-1) [] []
   end.
 
-Definition decode (inp : list Z) : nopts * list op * Z * Z * list areq :=
+Definition decode (inp : list Z) : nopts * list item * Z * Z * list areq :=
   let '(o, ops, t) := decode_hist inp in
   match t with
   | x :: ku :: t1 => let '(rs, _) := decode_seq dec_op t1 in (o, ops, x, ku, map rq_of rs)
